@@ -23,30 +23,54 @@ def run(check: Check) -> None:
     check.bounds.update({"whitespace_length": 1, "pairs": "all 676 ordered pairs (thorough) / ~95 (quick: fixed core with an operator/bracket/quote first + seeded 25)",
                          "quoted_name_length": 3 if thorough else 2, "span_string_length": 3 if thorough else 2, "fragments": len(ch_c15.FRAGMENTS)})
     check.out_of_scope += ["whitespace runs longer than 1 character at a site", "strings longer than N for spans / quoting", "Python fragments outside the 10-fragment menu"]
-    # native cross-validation
-    WS = ["", " ", "\t", "\n", "　", "\x1c", " "]
-    ok = True
+    # native cross-validation: the same harness functions, untraced, over a concrete grid; a failure here IS a reproduced violation
+    WS = ["", " ", "\t", "\n", "\u3000", "\x1c", "\xa0"]
+    fails = []
+
+    def native(fname, *args, **glob):
+        for k, v in glob.items():
+            ch_c15.__dict__[k] = v
+        try:
+            ok = getattr(ch_c15, fname)(*args)
+        except Exception:
+            ok = False
+        if ok is not True:
+            fails.append((fname, list(args), glob))
+
     for i in range(26):
         for j in range(26):
-            ch_c15.__dict__["__SHARD__"], ch_c15.__dict__["__J__"] = i, j
             for w in WS:
-                ok = ok and ch_c15.ws_pair(i, j, w, "", " ")
+                native("ws_pair", i, j, w, "", " ", __SHARD__=i, __J__=j)
     for k in range(12):
-        ch_c15.__dict__["__SHARD__"] = k
         for ws in itertools.product(["", " ", "\n"], repeat=4):
-            ok = ok and ch_c15.ws_formula(k, *ws)
-    ch_c15.__dict__["__N__"] = 2
+            native("ws_formula", k, *ws, __SHARD__=k, __S__=1)
     chars = [chr(c) for c in list(range(0, 130)) + [0x3000, 0x2028, 0xE9]]
     for a in chars:
         for b in [""] + chars[30:60]:
             n = a + b
             if "`" not in n:
-                ok = ok and ch_c15.quote_name(n)
-            ok = ok and ch_c15.spans(n) and ch_c15.spans(n + "`") and ch_c15.spans("%" + n)
-    ok = ok and all(ch_c15.pynorm(i, j, c) for i in range(10) for j in range(3) for c in range(3))
-    check.obligation("lexing/native cross-validation", "ground" if ok else "refuted")
-    if not ok:
-        check.harness_error("a lexing law fails natively on the validation grid (see harness/ch_c15.py)")
+                native("quote_name", n, __N__=2)
+            if all(ch not in ch_c15._BAD for ch in n):
+                native("quote_python", n, __N__=2)
+            for s_ in (n, n + "`", "%" + n):
+                native("spans", s_, __N__=3)
+    for k in range(101):
+        native("quote_name_factor", k, __SHARD__=k % 4)
+    for i in range(10):
+        for j in range(3):
+            for c in range(3):
+                native("pynorm", i, j, c, __SHARD__=i)
+    check.obligation("lexing/native cross-validation", "ground" if not fails else "refuted")
+    seen_f = set()
+    for fname, args, glob in fails:
+        if fname in seen_f:
+            continue
+        seen_f.add(fname)
+        call = {"args": args, "kwargs": {}}
+        for k, v in glob.items():
+            ch_c15.__dict__[k] = v
+        check.violation(f"{ch_c15.explain(fname, call).split(':', 1)[0]}::{fname}{args}", ch_c15.explain(fname, call),
+                        {"kind": "ch_native", "module": "ch_c15", "function": fname, "call": call, "globals": glob})
     pairs = [(i, j) for i in range(26) for j in range(26)]
     if not thorough:
         core = [(i, j) for i, j in pairs if ch_c15.SYMS[i] in ("+", "**", "~", "%in%", "(", ")", "`a b`", "f(a)") and j % 3 == 0]
